@@ -778,7 +778,9 @@ def api_coverage(r):
     return {"states": r["tlc"]["distinct"], "transitions": r["tlc"]["states"], "traces_validated_against_impl": r["runs"],
             "samples": r["samples"], "histories": r["histories"], "configurations": r["cfgs"], "max_input_chars": r["maxlen"], "max_ops": r["maxops"],
             "rule": "LexerAPI.tla: every reachable state of two lexer slots (A/B token types, spanned or not) over every input of at most max_input_chars characters and every history of at most max_ops operations "
-                    "from {next, bump(n) for every n up to len+2 and usize::MAX-1, usize::MAX, clone, morph, spanned}; one replayed history per distinct state x enabled operation, on debug and release, default and forbid_unsafe builds"}
+                    "from {next, bump(n) for every n up to len+2 and usize::MAX-1, usize::MAX, clone, clone_from, morph, spanned}; plus every history of at most max_ops - 1 operations in which a fresh lexer over a SECOND source buffer (the same characters rotated by one) "
+                    "takes part (clone / clone_from / morph / spanned carry the source along with the position; the observation includes which buffer source() refers to); "
+                    "one replayed history per distinct state x enabled operation, on debug and release, default and forbid_unsafe builds"}
 
 
 def check_C14(tier, seed, rest):
@@ -868,13 +870,15 @@ def check_C17(tier, seed, rest):
     t0 = time.time()
     import front
     r = front.cli_run(tier, seed)
-    cov = {"evaluations": r["strip_cases"] + r["history_steps"], "distinct_nontrivial": r["strip_cases"] + r["histories"], "samples": r["samples"],
-           "tlc_states": r["tlc"]["distinct"], "strip_cases": r["strip_cases"], "file_histories": r["histories"], "file_history_steps": r["history_steps"],
+    cov = {"evaluations": r["strip_cases"] + r["item_cases"] + r["history_steps"], "distinct_nontrivial": r["strip_cases"] + r["item_cases"] + r["histories"], "samples": r["samples"],
+           "tlc_states": r["tlc"]["distinct"], "strip_cases": r["strip_cases"], "item_cases": r["item_cases"], "item_cases_enumerated_by_tlc": r["item_cases_enumerated"], "file_histories": r["histories"], "file_history_steps": r["history_steps"],
            "rule": "Cli.tla part 1: enum sources = derive lists (every sequence of 1..3 distinct entries of {Debug, Logos, Clone, serde::Serialize, logos::Logos, ::logos::Logos, ::core::fmt::Debug}, separated by comma-space or by a bare comma, with/without trailing comma, optional second derive attribute) "
                    "x other attributes (doc+repr before, cfg_attr after, allow between logos attributes) x 0..2 #[logos] attributes x LF / CRLF line endings, over a fixed body with variant docs, cfg, two regex attributes on one variant, a field attribute and two string literals containing a line break; "
                    "the real binary's stdout must parse as Rust, its first item must equal the expected stripped enum (derive lists compared as lists of paths) and the rest must equal generate()'s output for the LF text (what rustc hands to the derive). "
-                   "Part 2: every history of write/check/tamper/crlf/delete up to the bound, exit status and file state compared after every step; distinct = distinct sources + distinct histories"}
-    finish("C17", tier, seed, "exploration", cov, r["findings"], t0, ["the enum body is fixed; only attribute placement and derive lists vary", "--format (rustfmt) is not exercised"])
+                   "Part 1b (Items): visibility (pub, none, pub(crate)) x generics (none, lifetime, bounded type parameter, where clause) x every sequence of up to 3 attributes of {token, regex, serde, token_kind, logos_ext} on a variant "
+                   "x what the variant carries (nothing, a field, a field with an attribute of its own, an explicit discriminant) x enum-level attributes interleaved with #[logos] ones; KeepAttrs of Cli.tla says what must remain (exactly logos / token / regex go, look-alikes stay, order kept). "
+                   "Part 2: every history of write / check / write --format / check --format / five kinds of damage / crlf / addeol / delete up to the bound (a file holding the unformatted output is not up to date for --format, and vice versa), exit status and file state compared after every step; distinct = distinct sources + distinct histories"}
+    finish("C17", tier, seed, "exploration", cov, r["findings"], t0, ["part 1: the enum body is fixed, attribute placement and derive lists vary; part 1b: the derive list is fixed, the item varies", "--format: rustfmt of this sandbox; only its being different from the unformatted text matters"])
 
 
 def check_C09(tier, seed, rest):
@@ -933,6 +937,7 @@ def check_C13(tier, seed, rest):
     cov = {"states": r["tlc"]["distinct"], "transitions": r["tlc"]["states"], "traces_validated_against_impl": r["runs"], "samples": r["samples"],
            "behaviours": r["behaviours"], "configurations": r["cfgs"], "definitions": r["defs"], "max_input_chars": r["maxlen"],
            "rule": "Callbacks.tla: 10 definitions attaching every callback return type of the documented table (unit: (), bool, Skip, Result<Skip,E>, Filter<()>; value: T, Option, Result, Filter, FilterResult; "
-                   "any-token: Self, Result<Self,E>, Filter<Self>, FilterResult<Self,E>; skip callbacks: (), Skip, Result<(),E>, Result<Skip,E>; bump inside a callback; error callback; inline closures whose body starts with a (..), {..} or [..] group and continues after it), decisions = len % 4; "
-                   "every input up to max_input_chars characters; expected items and expected callback invocation list replayed on 4 builds; SkipTransparent checked by TLC on the twin pair"}
+                   "any-token: Self, Result<Self,E>, Filter<Self>, FilterResult<Self,E>; skip callbacks: (), Skip, Result<(),E>, Result<Skip,E>; bump inside a callback before every kind of decision (emit, false, Err(e), Filter::Skip, Skip, and from the callback of a skip pattern; str and bytes); error callback; inline closures whose body starts with a (..), {..} or [..] group and continues after it), decisions = len % 4; "
+                   "every input up to max_input_chars characters, lexed by an ordinary AND by a partial lexer (Lexer::new_partial: items and callback invocations up to the first None); expected items and expected callback invocation list replayed on 4 builds; "
+                   "SkipTransparent (twin pair) and PartialIsPrefix (a partial lexer commits, and calls back for, a leading run of the one-shot stream) checked by TLC"}
     finish("C13", tier, seed, "model_checking", cov, v, t0, ["callback decisions depend on the match length only", "reference lexer as in C01"])
